@@ -294,6 +294,7 @@ EQUIVALENT = {
     "c15_sma_absolute_index_cache": "only differs when index < period-1 after a trim, i.e. when the look-back is NOT retained, which the property's precondition excludes",
     "c16_rising_uses_negative_index": "for index <= length the window is clamped to the start of the list, which the negative slice bound reproduces exactly",
     "c14_calc_index_minus_two": "recomputing ANY already computed index reproduces the state, so addressing a neighbouring candle is unobservable once the cursor is put back on the newest candle (7bc2d93)",
+    "c11_raw_copies_keep_converted_flat": "a converted candle is only flat when the raw candle is flat at the previous HA level, in which case the converted values EQUAL the raw ones: skipping the un-conversion changes nothing (and since 5779f26 the tag is reset for every copy anyway)",
     "c16_value_range_missing_raises": "patterns only evaluate at index >= 10 where len(candles) - start_index >= length, so the divisor is unchanged",
 }
 # Mutants kept although NO check is expected to see them (they mark a documented blind spot).
